@@ -53,19 +53,39 @@ func NoBlock(what string, f func()) { mc.NoBlock(what, f) }
 // Atomically runs f as one atomic step (it already is under the controlled scheduler).
 func Atomically(f func()) { f() }
 
-// Locker is a mutex whose ownership oracles can inspect.
+// Locker is a mutex whose ownership oracles can inspect. Shared: it is the read side of a
+// reader/writer lock (like sync.RWMutex.RLocker()), so several threads can hold it at once.
 type Locker struct {
 	m        shimsync.Mutex
+	rw       shimsync.RWMutex
+	Shared   bool
 	owner    int
+	holders  map[int]int
 	Unlocks  int
 	OnUnlock func()
 }
 
-func (l *Locker) Lock() { l.m.Lock(); l.owner = mc.ThreadID() }
+func (l *Locker) Lock() {
+	if l.Shared {
+		l.rw.RLock()
+		if l.holders == nil {
+			l.holders = map[int]int{}
+		}
+		l.holders[mc.ThreadID()]++
+		return
+	}
+	l.m.Lock()
+	l.owner = mc.ThreadID()
+}
 
 func (l *Locker) Unlock() {
-	l.owner = -1
-	l.m.Unlock()
+	if l.Shared {
+		l.holders[mc.ThreadID()]--
+		l.rw.RUnlock()
+	} else {
+		l.owner = -1
+		l.m.Unlock()
+	}
 	l.Unlocks++
 	if l.OnUnlock != nil {
 		l.OnUnlock()
@@ -76,7 +96,12 @@ func (l *Locker) Unlock() {
 func (l *Locker) ClearOnUnlock() { l.OnUnlock = nil }
 
 // HeldByMe reports whether the calling thread holds the lock.
-func (l *Locker) HeldByMe() bool { return l.m.Held() && l.owner == mc.ThreadID() }
+func (l *Locker) HeldByMe() bool {
+	if l.Shared {
+		return l.holders[mc.ThreadID()] > 0
+	}
+	return l.m.Held() && l.owner == mc.ThreadID()
+}
 
 // Sends returns how many values were ever sent on channel c (-1 if unknown).
 func Sends(c any) int {
